@@ -253,7 +253,11 @@ class Interp:
         rec = self.facts.hir.get(cal) or getattr(self.facts, 'hir_all', {}).get(cal)
         if rec is None or getattr(self, '_depth', 0) > 6:
             return None
-        B = hirq.Body(self.facts, rec)
+        # (the index of a body is read-only and depends on the record alone: built once per callee and fact set)
+        bodies = self.facts.__dict__.setdefault('_inline_bodies', {})
+        B = bodies.get(id(rec))
+        if B is None:
+            B = bodies[id(rec)] = hirq.Body(self.facts, rec)
         sub = Interp(self.facts, B, self.summaries, self.unroll, self.inline, self.field_hook, self.for_once, self.result_combinators, self.combinators, self.generic_loops,
                      self.domain, self.local_try, self.places)
         sub._depth = getattr(self, '_depth', 0) + 1
@@ -673,6 +677,19 @@ class Interp:
                     outs.append(Out('val', ('lit', a[1][lo:hi]), s))
                 else:
                     outs.append(Out('div', UNIT, s.event(('panic', 'slice index out of range', (a, b), e))))
+            elif a[0] == 'lit' and isinstance(a[1], str) and b[0] == 'struct' and b[1].rsplit('::', 1)[-1] in ('RangeFrom', 'RangeTo', 'Range', 'RangeFull') \
+                    and all(v[0] == 'lit' and isinstance(v[1], int) for n_, v in b[2]):
+                # `s[a..b]` of a known str: byte offsets into its UTF-8 encoding; panics when out of range or not on a character
+                # boundary (std, `impl Index<Range..> for str`), else the sub-string
+                enc = a[1].encode('utf-8')
+                fl = dict(b[2])
+                lo = fl['start'][1] if 'start' in fl else 0
+                hi = fl['end'][1] if 'end' in fl else len(enc)
+                boundary = lambda k: k == len(enc) or (0 <= k < len(enc) and (enc[k] & 0xC0) != 0x80)
+                if 0 <= lo <= hi <= len(enc) and boundary(lo) and boundary(hi):
+                    outs.append(Out('val', ('lit', enc[lo:hi].decode('utf-8')), s))
+                else:
+                    outs.append(Out('div', UNIT, s.event(('panic', 'str slice index out of range / not a char boundary', (a, b), e))))
             elif ((self.exact_seqs and a[0] == 'vec' and ground(a)) or a[0] == 'array') and b[0] == 'lit' and isinstance(b[1], int) and not isinstance(b[1], bool):
                 # an array expression (or, with exact_seqs, a vector whose elements are all known) at a literal position: that element,
                 # or the bounds-check panic
@@ -1388,6 +1405,25 @@ class Interp:
                             else:
                                 outs.append(o)
                     return outs
+        if self.exact_seqs and not e['args'] and (cal == 'core::iter::traits::iterator::Iterator::next' or cal.endswith(' as core::iter::traits::iterator::Iterator>::next')):
+            # it.next() on a local iterator whose remaining items are all known (the pieces of a split literal, the octets of a literal
+            # byte string): Some(first remaining item) and the local holds the rest afterwards; None (and no change) when nothing is
+            # left - Iterator::next by definition, for every iterator that yields its items front to back.  A `&mut` alias is followed
+            # to the local it names; an alias that cannot be followed has no model (the ordinal cursor below applies).
+            recv = hirq.peel_refs(e['recv'])
+            if recv['k'] == 'Path' and recv.get('res') == 'local' and recv['bind'] in st.env:
+                b0 = recv['bind']
+                b = self.referent_local(b0)
+                d0 = self.body.defs.get(b0) or {}
+                aliased = ((d0.get('pat') or {}).get('ty') or '').startswith('&mut ') and b == b0
+                cur = st.env.get(b)
+                if not aliased and cur is not None and (cur[0] in ('vec', 'array') or (cur[0] == 'lit' and isinstance(cur[1], bytes))):
+                    els = self.literal_elems(cur)
+                    if els is not None:
+                        if not els:
+                            return [Out('val', ('ctor', 'None', ()), st)]
+                        rest = ('lit', cur[1][1:]) if cur[0] == 'lit' else ('vec', tuple(els[1:]))
+                        return [Out('val', ('ctor', 'Some', (els[0],)), st.set(b, rest).event(('call', cal, (cur,), e)))]
         if cal.endswith('alloc::vec::Vec::<T, A>::push') and len(e['args']) == 1:
             tgt = self.vec_target(e['recv'])
             if tgt is not None:
@@ -1437,6 +1473,22 @@ class Interp:
             r = self.vec_mutator(cal, e, st)
             if r is not None:
                 return r
+        if cal.endswith('alloc::vec::Vec::<T, A>::truncate') and len(e['args']) == 1 and not self.places:
+            # vec.truncate(n) with a known n on a local vector whose elements are all listed (known octets, pushed / appended elements):
+            # the first n elements remain (std: "keeping the first len elements"; no effect when n >= the length)
+            recv = hirq.peel_refs(e['recv'])
+            if recv['k'] == 'Path' and recv.get('res') == 'local':
+                res, abn = self.seq(e['args'], st)
+                outs, handled = list(abn), True
+                for (k,), s1 in res:
+                    old = s1.env.get(recv['bind'], ('unk', 'vec'))
+                    els = listed_elems(old)
+                    if els is not None and k[0] == 'lit' and isinstance(k[1], int) and not isinstance(k[1], bool) and k[1] >= 0:
+                        outs.append(Out('val', UNIT, s1.set(recv['bind'], ('vec', tuple(els[:k[1]]))).event(('call', cal, (old, k), e))))
+                    else:
+                        handled = False
+                if handled:
+                    return outs
         if cal.endswith('alloc::vec::Vec::<T, A>::insert') and len(e['args']) == 2:
             # vec.insert(k, x) on a vector whose elements are known, at a literal position
             recv = hirq.peel_refs(e['recv'])
@@ -2248,6 +2300,54 @@ ASCII_CLASSES = {
     'is_ascii_control': _cls((0x00, 0x1f), 0x7f),
 }
 
+def default_value(ty):
+    """`<T as Default>::default()` for the types whose default is a known value: an empty Vec, the empty string (String, &str,
+    Cow<str>), the empty slice (&[T]: `impl Default for &[T]` is `&[]`); any other type: the opaque ('default', type)"""
+    if ty.startswith('alloc::vec::Vec<'):
+        return ('vec', ())
+    if ty in ('alloc::string::String', '&str') or (ty.startswith('alloc::borrow::Cow<') and ty.endswith(' str>')):
+        return ('lit', '')
+    if ty == '&[u8]':
+        return ('lit', b'')
+    return ('default', ty)
+
+def parse_int_radix(text, radix, signed):
+    """`<int>::from_str_radix(text, radix)` as std defines it (core::num, `from_str_radix`): an empty string is an error; one leading
+    `+` is accepted for every integer type and one leading `-` for the signed ones, and a sign with nothing after it is an error;
+    every remaining character must be a digit of the radix (`char::to_digit(radix)`: 0-9, then a-z / A-Z without regard to case,
+    value < radix) - no whitespace, no underscore, no second sign; the value is accumulated in the target type (overflow is an
+    error: decided by the caller from the returned number).  Returns the number, or None for an error.  Works on the octets of
+    the str, as std does (an octet >= 0x80 is no digit)."""
+    b = text.encode('utf-8') if isinstance(text, str) else bytes(text)
+    if not b:
+        return None
+    neg = False
+    if b[:1] == b'+' or (b[:1] == b'-' and signed):
+        neg = b[:1] == b'-'
+        b = b[1:]
+        if not b:
+            return None
+    n = 0
+    for c in b:
+        d = char_digit(c, radix)
+        if d is None:
+            return None
+        n = n * radix + d
+    return -n if neg else n
+
+def char_digit(code, radix):
+    """`char::to_digit(radix)` of the character with this code point (std: '0'..='9' are 0..9, 'a'..='z' and 'A'..='Z' are 10..35;
+    Some(d) exactly when d < radix) - None otherwise.  (radix > 36 panics in std: not asked here.)"""
+    if 0x30 <= code <= 0x39:
+        d = code - 0x30
+    elif 0x61 <= code <= 0x7a:
+        d = code - 0x61 + 10
+    elif 0x41 <= code <= 0x5a:
+        d = code - 0x41 + 10
+    else:
+        return None
+    return d if d < radix else None
+
 def ground(t):
     """t is a completely known value: a literal, or a vector / array / tuple / constructor of completely known values"""
     if t[0] == 'lit':
@@ -2257,6 +2357,21 @@ def ground(t):
     if t[0] == 'ctor':
         return all(ground(x) for x in t[2])
     return False
+
+def listed_elems(t):
+    """The element terms, in order, of a tracked vector term whose length is known: literal octets, a vector of listed elements, such
+    a vector + one pushed element, + the elements of another such sequence (extend / extend_from_slice); None otherwise."""
+    if t[0] == 'lit' and isinstance(t[1], bytes):
+        return [('lit', x) for x in t[1]]
+    if t[0] in ('vec', 'array'):
+        return list(t[1])
+    if t[0] == 'vecpush':
+        a = listed_elems(t[1])
+        return a + [t[2]] if a is not None else None
+    if t[0] == 'concat':
+        a, b = listed_elems(t[1]), listed_elems(t[2])
+        return a + b if a is not None and b is not None else None
+    return None
 
 def vec_truncate(c, n):
     """The content of vector term c after truncate(n)."""
@@ -2511,6 +2626,8 @@ def builtin_summary(I, cal, args, node, st):
         v = args[0]
         if v[0] == 'ctor' and v[1] in ('Some', 'Ok'):
             return [Out('val', v[2][0], st)]
+        if v[0] == 'ctor' and v[1] in ('None', 'Err') and name == 'unwrap_or_default':
+            return [Out('val', default_value(node.get('ty') or ''), st)]       # the Default of the payload type
         if v[0] == 'ctor' and v[1] in ('None', 'Err') and name != 'unwrap_or_default':
             return [Out('div', UNIT, st.event(('panic', cal, tuple(args), node)))]
         good = 'Some' if is_opt else 'Ok'
@@ -2597,8 +2714,7 @@ def builtin_summary(I, cal, args, node, st):
                 elif name == 'unwrap_or_else':
                     outs.extend(I.apply(args[1], [] if is_opt else [inner], node, s))
                 else:
-                    ty = node.get('ty') or ''
-                    outs.append(Out('val', ('vec', ()) if ty.startswith('alloc::vec::Vec<') else (('lit', '') if ty in ('alloc::string::String', '&str') or (ty.startswith('alloc::borrow::Cow<') and ty.endswith(' str>')) else ('default', ty)), s))
+                    outs.append(Out('val', default_value(node.get('ty') or ''), s))
             elif name in ('ok_or', 'ok_or_else'):
                 if var == good:
                     outs.append(Out('val', ('ctor', 'Ok', (inner,)), s))
@@ -2723,6 +2839,55 @@ def builtin_summary(I, cal, args, node, st):
                         k = verdicts.index(False) if False in verdicts else len(octs)
                         res_ = octs[k:] if name == 'skip_while' else octs[:k]
                     return [Out('val', ('lit', res_), s)]
+    if name == 'from_str_radix' and len(args) == 2 and args[0][0] == 'lit' and isinstance(args[0][1], str) and args[1][0] == 'lit' \
+            and isinstance(args[1][1], int) and not isinstance(args[1][1], bool) and 2 <= args[1][1] <= 36:
+        # <int>::from_str_radix(known str, known radix): see parse_int_radix; Ok(n) when the target type holds n, Err otherwise
+        m_ = re.match(r'core::num::<impl ([iu])(8|16|32|64|128|size)>::from_str_radix$', cal)
+        if m_:
+            bits = 64 if m_.group(2) == 'size' else int(m_.group(2))
+            lo_, hi_ = (-(1 << (bits - 1)), (1 << (bits - 1)) - 1) if m_.group(1) == 'i' else (0, (1 << bits) - 1)
+            n_ = parse_int_radix(args[0][1], args[1][1], m_.group(1) == 'i')
+            if n_ is not None and lo_ <= n_ <= hi_:
+                return [Out('val', ('ctor', 'Ok', (('lit', n_),)), st)]
+            return [Out('val', ('ctor', 'Err', (('unk', 'ParseIntError'),)), st)]
+    if cal in ('core::str::converts::from_utf8', 'core::str::<impl str>::from_utf8') and len(args) == 1 and args[0][0] == 'lit' and isinstance(args[0][1], bytes):
+        # str::from_utf8(known octets): Ok(the str) exactly when the octets are well-formed UTF-8 (no overlong forms, no surrogates,
+        # nothing above U+10FFFF - the same definition Python's strict decoder implements), Err otherwise
+        try:
+            return [Out('val', ('ctor', 'Ok', (('lit', args[0][1].decode('utf-8')),)), st)]
+        except UnicodeDecodeError:
+            return [Out('val', ('ctor', 'Err', (('unk', 'Utf8Error'),)), st)]
+    if cal == 'core::slice::<impl [T]>::split' and len(args) == 2 and args[0][0] == 'lit' and isinstance(args[0][1], bytes) and args[1][0] in ('closure', 'fn') and len(args[0][1]) <= 512:
+        # slice.split(pred) on known octets: the sub-slices between the elements pred accepts, in order, those elements left out - n
+        # separators give n + 1 pieces, empty ones included (an empty slice gives one empty piece).  The predicate is applied to
+        # every element in order; no model when it does not decide on one.
+        pieces, cur, s, okm = [], [], st, True
+        for x in args[0][1]:
+            outs_ = [o for o in I.apply(args[1], [('lit', x)], node, s)]
+            if len(outs_) != 1 or outs_[0].kind != 'val':
+                okm = False; break
+            ds = I.decide(outs_[0].val, outs_[0].st)
+            if len(ds) != 1:
+                okm = False; break
+            s = ds[0][1]
+            if ds[0][0]:
+                pieces.append(bytes(cur)); cur = []
+            else:
+                cur.append(x)
+        if okm:
+            pieces.append(bytes(cur))
+            return [Out('val', ('vec', tuple(('lit', p_) for p_ in pieces)), s)]
+    if cal == 'core::str::<impl str>::split' and len(args) == 2 and all(a[0] == 'lit' and isinstance(a[1], str) for a in args) and args[1][1]:
+        # str.split(pat) with a known character / non-empty string pattern on a known str: the sub-strings between the
+        # non-overlapping matches found left to right, empty ones included (what Python's str.split(sep) computes for a non-empty sep)
+        return [Out('val', ('vec', tuple(('lit', p_) for p_ in args[0][1].split(args[1][1]))), st)]
+    if cal in ('core::char::methods::<impl char>::to_digit', 'core::char::methods::<impl char>::is_digit') and len(args) == 2 \
+            and ordinal(args[0]) is not None and ordinal(args[0])[0] == 'char' and args[1][0] == 'lit' and isinstance(args[1][1], int) and 2 <= args[1][1] <= 36:
+        # char::to_digit(radix) / is_digit(radix) of a known character: see char_digit
+        d_ = char_digit(ordinal(args[0])[1], args[1][1])
+        if name == 'is_digit':
+            return [Out('val', ('lit', d_ is not None), st)]
+        return [Out('val', ('ctor', 'Some', (('lit', d_),)) if d_ is not None else ('ctor', 'None', ()), st)]
     if name == 'try_from' and len(args) == 1 and args[0][0] == 'lit' and isinstance(args[0][1], int) and not isinstance(args[0][1], bool):
         # checked integer conversion of a known number: Ok(n) when the target type holds it, Err otherwise
         # (std spreads these impls over several modules - core::convert::num, ..::ptr_try_from_impls -: the impl header names the types)
@@ -2782,7 +2947,8 @@ def builtin_summary(I, cal, args, node, st):
         if m_:
             return [Out('val', ('lit', {'8': 1, '16': 2, '32': 4, '64': 8, '128': 16, 'size': 8}[m_.group(1)[1:]]), st)]
     if name in ('is_empty', 'len') and args and args[0][0] == 'lit' and isinstance(args[0][1], (bytes, str)):
-        return [Out('val', ('lit', len(args[0][1]) == 0 if name == 'is_empty' else len(args[0][1])), st)]
+        n_ = len(args[0][1].encode('utf-8') if isinstance(args[0][1], str) else args[0][1])       # (str::len counts octets)
+        return [Out('val', ('lit', n_ == 0 if name == 'is_empty' else n_), st)]
     if name == 'input_len' and 'nom::traits::InputLength' in cal and len(args) == 1 and args[0][0] == 'lit' and isinstance(args[0][1], (bytes, str)):
         # nom's InputLength for &[u8] / &str is `self.len()`: the number of octets
         return [Out('val', ('lit', len(args[0][1].encode('utf-8') if isinstance(args[0][1], str) else args[0][1])), st)]
